@@ -32,6 +32,7 @@ type gv struct {
 	arr *[]gv
 	idx int
 	fn  *ssa.Function
+	tup []gv // 'u': the (value, ok) pair of a comma-ok lookup
 }
 
 type gframe struct {
@@ -498,6 +499,26 @@ func (g *gssa) pureStep(p *gpath, fr *gframe, in ssa.Instruction, depth int) {
 		if a.k == 'e' && a.idx >= 0 && a.idx < len(*a.arr) {
 			(*a.arr)[a.idx] = g.val(fr, x.Val)
 		}
+	case *ssa.Lookup:
+		// a package-level table that is never written (tables.go): its entries are constants of the parser
+		if ld, ok := x.X.(*ssa.UnOp); ok && ld.Op == token.MUL {
+			if gl, ok := ld.X.(*ssa.Global); ok {
+				if ct := g.c.constTableOf(gl.Object()); ct != nil && ct.isMap && len(ct.strs) == 0 {
+					if k := g.val(fr, x.Index); k.k == 'i' {
+						v, found := ct.ints[k.i]
+						if x.CommaOk {
+							fr.vals[x] = gv{k: 'u', tup: []gv{{k: 'i', i: v}, {k: 'b', b: found}}}
+						} else {
+							fr.vals[x] = gv{k: 'i', i: v}
+						}
+					}
+				}
+			}
+		}
+	case *ssa.Extract:
+		if t := g.val(fr, x.Tuple); t.k == 'u' && x.Index < len(t.tup) {
+			fr.vals[x] = t.tup[x.Index]
+		}
 	case *ssa.Convert:
 		fr.vals[x] = g.val(fr, x.X)
 	case *ssa.ChangeType:
@@ -640,6 +661,7 @@ type glevelRun struct {
 	outcomes []goutcome
 	paths    int
 	prefix   bool // prefix-operator mode: no left operand, token known from entry
+	onCall   func(p *gpath, callee *ssa.Function) // observes every call of a parser function on the path
 }
 
 func (r *glevelRun) operandName(callee *ssa.Function, args []gv) string {
@@ -862,6 +884,9 @@ func (r *glevelRun) call(p *gpath, fr *gframe, x *ssa.Call) bool {
 	}
 	if callee.Pkg != g.pkg {
 		return true // outside the parser: cannot advance its lexer position
+	}
+	if r.onCall != nil {
+		r.onCall(p, callee)
 	}
 	if !g.advancer[callee] {
 		if g.buildsNode(callee) && len(callee.Blocks) > 0 && len(p.stack) < 5 {
